@@ -23,6 +23,15 @@ CLAIMED = {
             "selective and idempotent. Right level: interruption points are an integer the solver ranges over.",
             "MemFS stub semantics (atomic per step, program-order durability, no fsync reordering); fixed file "
             "names/tasks; contents <=2 chars (copied, never branched on); CLI/pandas paths outside."),
+    "C19": ("3/C19",
+            "Bounded, solver-decided: (a) the lock / refresh-interval protocol of CacheLock for every integer clock "
+            "value and threshold with a stub lock table (held only between acquire and release) - refusal iff too "
+            "recent or busy, lock really held inside the body, second holder refused, released and timestamp written "
+            "iff write_time; (b) cache population interrupted at every file-system step (torn copies included), "
+            "optionally followed by a second interrupted population, after which every bundled version must load "
+            "with complete content. True process interleavings are NOT decided (single-threaded engine).",
+            "stub portalocker/clock contracts; MemFS semantics; two bundled files with 1-2 char contents; "
+            "concurrent interleavings and the network refresh path are outside the claim."),
 }
 
 NOT_APPLICABLE = {
